@@ -10,10 +10,12 @@ from harness.common.core import rat
 from harness.pyx import drift
 
 ID = "C05"
-LEAN_TARGETS = ["ChmpyVerif.Props.C05"]
+LEAN_TARGETS = ["ChmpyVerif.Props.C05", "ChmpyVerif.Props.C05Share"]
 T = "ChmpyVerif.Props.C05."
 THEOREMS = [T + n for n in ("interp_between_nodes", "interp_pos", "rho_append", "rho_perm", "rho_isometry", "dist2_rigid",
-                            "weight_mem_unit_interval", "weights_complementary", "weight_complementary_model", "paths_agree_inside_table")]
+                            "weight_mem_unit_interval", "weights_complementary", "weight_complementary_model", "paths_agree_inside_table",
+                            # Props/C05Share.lean
+                            "weight_half_iff", "weight_gt_half_iff", "weight_mono_own", "weight_anti_other", "shares_sum_one", "weight_perm", "weight_union")]
 TRUSTED = [
     "hand model Model/Density.lean of interp_f / interp_f_one / evaluate_rho / weights in exact rationals; float32 rounding of the kernel is not "
     "modelled (relative tolerance 2e-5 per value in the correspondence); the table is loaded from a dump of the real thakkar_interp.npz each run",
@@ -27,7 +29,8 @@ MANIFEST = {
     "text": ("Proof. Over ℚ and for ANY table: the interpolant between nodes is a convex combination (between the neighbouring tabulated values, positive "
              "for a positive table); the density is additive over disjoint atom sets, invariant under any permutation of the atoms and under any map "
              "that preserves atom-point distances; x -> Rx+t with RᵀR=1 preserves them; the stockholder weight lies in [0,1] and complementary "
-             "weights sum to 1 without background; the batch and single-point interpolators agree inside the table. Hand model tied by correspondence "
+             "weights sum to 1 without background; the level 1/2 is exactly where the two densities are equal, the weight is monotone in both, shares of "
+             "any number of groups sum to 1 and a three-way split is additive (C05Share); the batch and single-point interpolators agree inside the table. Hand model tied by correspondence "
              "with the compiled kernel on the real table (float32 tolerance) plus a metamorphic oracle."),
     "note": ("Trusted: Lean kernel + Mathlib; exact rationals for float32; compiled extension = its .pyx (drift guard); table properties checked numerically."),
     "technique": "Lean 4 proof (ordered-field algebra, list permutation lemmas) + correspondence with the compiled kernel + metamorphic oracle",
@@ -222,6 +225,22 @@ def judge(seed, z_force=None):
             if bg == 0.0 and not np.allclose(wab + wba, 1.0, rtol=0, atol=1e-5):
                 return "complementary weights do not sum to one"
         for bg in (0.0, 1e-5, 1e-2):
+            # Props/C05Share.lean on the real kernel: which side of the level 1/2 a point is on is decided by the two densities (clear margins
+            # only: float32), and a three-way split of the atoms gives shares that add up (weight_union)
+            if bg == 0.0:
+                ra_, rb_ = a.rho(pts).astype(np.float64), b.rho(pts).astype(np.float64)
+                wab = StockholderWeight(a, b).weights(pts)          # no background
+                clear = np.abs(ra_ - rb_) > 1e-3 * (ra_ + rb_)
+                if np.any((wab[clear] > 0.5) != (ra_[clear] > rb_[clear])):
+                    return "a point with the larger interior density has weight below 1/2 (or the reverse)"
+                if k >= 2 and len(els) - k >= 1:
+                    j = k // 2
+                    A, C, B = (els[:j], pos[:j]), (els[j:k], pos[j:k]), (els[k:], pos[k:])
+                    cat = lambda x, y: (np.concatenate([x[0], y[0]]), np.vstack([x[1], y[1]]))
+                    w_a = StockholderWeight(PromoleculeDensity(A), PromoleculeDensity(cat(C, B))).weights(pts)
+                    w_c = StockholderWeight(PromoleculeDensity(C), PromoleculeDensity(cat(A, B))).weights(pts)
+                    if not np.allclose(w_a + w_c, wab, rtol=1e-4, atol=1e-5):
+                        return "shares of a three-way split of the atoms do not add up: w(A+C|B) != w(A|C+B) + w(C|A+B)"
             w2 = StockholderWeight.from_arrays(els[:k], pos[:k], els[k:], pos[k:], background=bg).weights(pts)
             if not np.allclose(w2, ra / (ra + rb + np.float32(bg)), rtol=rt):
                 return f"StockholderWeight.from_arrays(background={bg}) is not interior/(interior+exterior+background)"
